@@ -102,3 +102,31 @@ Theorem C06_fsub_converges_general_to_final : forall F p0 hist l s,
   r_cur s = fview (r_F s) (pfold p0 hist).
 Proof. exact fsub_converges_general_to_final. Qed.
 Print Assumptions C06_fsub_converges_general_to_final.
+
+(* "its own event stream is a well-formed delta of its own cache, so anything
+   subscribed below it converges as well": the events a filtered node emits on
+   a key (the deltas of its own entry) form a well-formed history from its entry
+   at the start to its entry at the end, whatever its interleaving ... *)
+From KC Require Import FilterChain.
+Theorem C06_emitted_history_wf : forall l s sf out, cwf s -> rtrace s l = Some (sf, out) ->
+  hist_wf (r_cur s) out /\ pfold (r_cur s) out = r_cur sf /\ cwf sf.
+Proof. exact emitted_history_wf. Qed.
+Print Assumptions C06_emitted_history_wf.
+
+(* ... hence a chain of filtered subscriptions / clones of ANY depth, each with
+   ANY interleaving of consuming its parent's events, listing its parent any
+   number of events ahead and Refilters, ends — once every node is ready and has
+   consumed everything — with the filters most recently set along the chain
+   applied in turn to the root's final entry: their conjunction *)
+Theorem C06_chain_converges : forall levels p0 hist fs bottom,
+  entry_wf p0 -> hist_wf p0 hist ->
+  chain p0 hist levels = Some (fs, bottom) ->
+  bottom = nested_fview fs (pfold p0 hist).
+Proof. exact chain_converges. Qed.
+Print Assumptions C06_chain_converges.
+
+Theorem C06_chain_is_conjunction : forall levels p0 hist fs bottom,
+  entry_wf p0 -> hist_wf p0 hist -> chain p0 hist levels = Some (fs, bottom) ->
+  bottom = fview (fun o => forallb (fun F => F o) fs) (pfold p0 hist).
+Proof. exact chain_is_conjunction. Qed.
+Print Assumptions C06_chain_is_conjunction.
